@@ -163,8 +163,18 @@ func TestVerifC20Payload(t *testing.T) {
 			ctx = notify.WithGroupLabels(ctx, model.LabelSet{"shared": "1"})
 			ctx = notify.WithNotificationReason(ctx, notify.ReasonFirstNotification)
 			R.Executions++
+			var before []string
+			for _, a := range alerts {
+				before = append(before, fmt.Sprint(a.Labels, a.Annotations, a.StartsAt, a.EndsAt, a.Timeout))
+			}
 			retry, err := n.Notify(ctx, alerts...)
 			where := fmt.Sprintf("batch [%s] max_alerts %d", strings.Join(names, ", "), max)
+			// the alerts handed to an integration are the ones the aggregation group (and other integrations) keep using
+			for i, a := range alerts {
+				if now := fmt.Sprint(a.Labels, a.Annotations, a.StartsAt, a.EndsAt, a.Timeout); now != before[i] && R.NViolations < 30 {
+					R.Violate("notifier-changed-the-alerts-it-was-handed", fmt.Sprintf("%s: alert %d was %s and is %s after Notify", where, i, before[i], now), map[string]any{"rerun": true, "part": "payload"})
+				}
+			}
 			if err != nil || retry {
 				R.Violate("webhook-notify-failed", fmt.Sprintf("%s: %v", where, err), map[string]any{"rerun": true, "part": "payload"})
 				continue
